@@ -145,6 +145,17 @@ def install():
         meta = _is_meta(key)
         if not meta:
             _maybe_fault("set", full)
+            slow = os.environ.get("CUBED_VERIF_SLOW_KEY")      # "<substring>|<seconds>": the FIRST write of a matching key is slow
+            if slow:
+                pat, secs = slow.rsplit("|", 1)
+                if pat in full:
+                    marker = os.path.join(trace_dir(), "slow-" + hashlib.sha1(pat.encode()).hexdigest()[:10])
+                    try:
+                        os.close(os.open(marker, os.O_CREAT | os.O_EXCL | os.O_WRONLY))
+                        emit({"k": "slowwrite", "path": full, "t0": time.monotonic_ns(), "t1": time.monotonic_ns()})
+                        await asyncio.sleep(float(secs))
+                    except FileExistsError:
+                        pass
             lat = float(os.environ.get("CUBED_VERIF_WLAT", "0") or 0)
             if lat:
                 d = lat
